@@ -8,6 +8,8 @@ import CookModel.Lemmas.BestUnit
 import CookModel.Lemmas.BestUnitBuilt
 import CookModel.Lemmas.FitFractionChoice
 import CookModel.Lemmas.FitChoice
+import CookModel.Lemmas.FitIdem
+import CookModel.Lemmas.FitIdemWitness
 /-
   C09  Unit conversion preserves the physical amount.
 
@@ -822,5 +824,94 @@ theorem C09_best_unit_rule_built {files : List (Bld.UnitsFile Rat)} {c : Convert
        (b = base ∧ ∀ x ∈ ((c.best u.pq).conversions s).unitsOf,
             amount (Rat.abs value.lead) u < amount 1 x - 1 / 1000 * base.ratio)) :=
   C09_best_unit_rule hbuilt.sound (bub_built_bestOK hbuilt) hpos hu hs h
+
+-- ===== w6numeric =====
+/-! ## `fit` twice, fractions enabled (wave `w6numeric`; Lemmas/FitIdem.lean, Lemmas/FitIdemWitness.lean)
+
+  Not a clause of the statement (C09 says amounts are kept, not that `fit` is a projection); closes the two items left
+  open after wave 4: fractions ENABLED on the way, and negative leading numbers.  Over ℚ a `new_approx` result has
+  exactly the value it approximates and conversions compose exactly, so a second `fit_fraction` started from the
+  selected unit sees the same candidates.  It is exactly the units WITHOUT a system for which this fails — see
+  `C09_fit_not_idempotent_without_system`. -/
+
+/-- **`fit` is idempotent when `fit_fraction` writes a fraction.**  Known unit `u`, fractions enabled for it,
+    `fit_fraction(u, u.system)` answers `true`: `fit` returns its quantity `q'`, and `fit` of `q'` returns `q'` — same
+    unit text, same numbers (number or range, any sign).  Units with or without a system. -/
+theorem C09_fit_idempotent_fraction {c : Converter Rat} (hc : c.Sound) (hcoh : c.SystemsCoherent)
+    (q q' : SQuantity Rat) (u : Unit Rat) (hu : unitInfo c q = some u)
+    (hen : (c.fractionsConfig u).enabled = true)
+    (hff : fitFraction c q u u.system = (q', .ok true)) :
+    fit c q = (q', .ok ()) ∧ fit c q' = (q', .ok ()) :=
+  fid_fit_idempotent_fraction hc hcoh q q' u hu hen hff
+
+/-- **`fit` is idempotent for every unit that has a system, whatever the fractions configuration** (enabled or not for
+    the unit, for some or all units of its list; whether a fraction is found or not).  Side conditions: the units of
+    the system's list have a system (`hlist`), lists not mixed across systems, and one of three conditions under which
+    `best_unit` confirms its own pick: non-negative leading numbers; or — any sign — no additive offset in the unit and
+    its list and positive ratios; or — any sign, any offset — a one-entry list (the shipped temperature lists). -/
+theorem C09_fit_idempotent_with_system {c : Converter Rat} (hc : c.Sound) (hcoh : c.SystemsCoherent)
+    (q q' : SQuantity Rat) (u : Unit Rat) (s : System) (hu : unitInfo c q = some u) (hsys : u.system = some s)
+    (hlist : ∀ x ∈ ((c.best u.pq).conversions s).unitsOf, x.system ≠ none)
+    (hsign : ((∀ x ∈ q.value.parts.head?, 0 ≤ x) ∧ (∀ x ∈ q'.value.parts.head?, 0 ≤ x)) ∨
+      (c.PosRatios ∧ u.difference = 0 ∧ ∀ x ∈ ((c.best u.pq).conversions s).unitsOf, x.difference = 0) ∨
+      ((c.best u.pq).conversions s).entries.length = 1)
+    (h : fit c q = (q', .ok ())) : fit c q' = (q', .ok ()) := by
+  have hum := unitInfo_mem hu
+  refine fid_fit_idempotent hc hcoh q q' u s hu hsys hlist ?_ h
+  intro value v' b0 hval hconv hq'
+  have hs := convertToBest_spec hc hum hconv
+  rcases hsign with ⟨h0, h0'⟩ | ⟨hpos, hu0, hall⟩ | hone
+  · have hlead : value.lead ∈ q.value.parts.head? := by
+      rw [← ofValue_parts hval]; cases value <;> simp [ConvertValue.parts, ConvertValue.lead]
+    have hlead' : v'.lead ∈ q'.value.parts.head? := by
+      rw [hq', toValue_parts]; cases v' <;> simp [ConvertValue.parts, ConvertValue.lead]
+    exact fid_pick_nonneg hc hum s hconv (h0 _ hlead) (h0' _ hlead')
+  · exact fid_pick_offset_free hc hum s hconv hu0 (hall b0 hs.1) (hpos u hum) (hpos b0 hs.2.1)
+  · exact fid_pick_single hc hum s hconv hone
+
+/-- **`fit` is idempotent over ℚ for EVERY quantity with the shipped converter**: any value kind, any sign (negative
+    temperatures included), any unit text (known, unknown or none), fractions enabled (imperial) or not.  The side
+    conditions are decided on the generated table (`fitIdemB`: per unit, its list is offset-free or has one entry; the
+    lists of units with a system hold units with a system; for units without a system — the time units — fractions
+    are disabled). -/
+theorem C09_bundled_fit_idempotent (q q' : SQuantity Rat)
+    (h : fit (Converter.bundled Rat) q = (q', .ok ())) : fit (Converter.bundled Rat) q' = (q', .ok ()) :=
+  fid_fit_idempotent_all C09_bundled_sound C09_bundled_systems_coherent C09_bundled_best_lists_ok.2
+    (by decide +kernel) q q' h
+
+/-- the same for every sound converter with positive ratios satisfying the decidable condition `fitIdemB` -/
+theorem C09_fit_idempotent_all {c : Converter Rat} (hc : c.Sound) (hcoh : c.SystemsCoherent) (hpos : c.PosRatios)
+    (hB : fitIdemB c = true) (q q' : SQuantity Rat) (h : fit c q = (q', .ok ())) :
+    fit c q' = (q', .ok ()) :=
+  fid_fit_idempotent_all hc hcoh hpos hB q q' h
+
+/-- **Where `fit` is NOT idempotent: a unit without a system with fractions enabled.**  `FidW.conv`: the shipped
+    imperial volume units (tsp, tbsp, cup, shipped fraction limits), default system imperial, plus a volume unit `gl`
+    (0.1923481585 l) without system, fractions enabled — a sound converter with coherent lists.  `fit(0.41 gl)` is
+    `5.333… tbsp` (plain number: for the system-less source only `try_fraction` IN tbsp is tried, whole part 5 > 4), and
+    `fit` of that is `1/3 c` (tbsp has a system: the whole imperial list is searched).  CONFIRMED ON THE REAL CODE
+    (bundled units + a layer `default_system = "imperial"`, `[fractions.unit] gl = true`, an `unspecified` volume unit
+    `gl`): `0.41 gl` ↦ `Regular(5.333333580288425) tbsp` ↦ `Fraction{0,1,3,err -1.47e-9} c` ↦ itself. -/
+theorem C09_fit_not_idempotent_without_system :
+    FidW.conv.Sound ∧ FidW.conv.SystemsCoherent ∧
+    ((fit FidW.conv FidW.q0).1 = ⟨.number (.regular (15772548997/2957352800)), some ['t','b','s','p']⟩ ∧
+      (fit FidW.conv FidW.q0).2.toOption = some ()) ∧
+    ((fit FidW.conv ⟨.number (.regular (15772548997/2957352800)), some ['t','b','s','p']⟩).1 =
+        ⟨.number (.fraction 0 1 3 (-209/141952941600)), some ['c']⟩ ∧
+      (fit FidW.conv ⟨.number (.regular (15772548997/2957352800)), some ['t','b','s','p']⟩).2.toOption = some ()) ∧
+    (fit FidW.conv ⟨.number (.fraction 0 1 3 (-209/141952941600)), some ['c']⟩).1 =
+      ⟨.number (.fraction 0 1 3 (-209/141952941600)), some ['c']⟩ :=
+  ⟨soundB_sound _ (by decide +kernel), fc_systemsCoherentB (by decide +kernel), by decide +kernel, by decide +kernel,
+    by decide +kernel⟩
+
+/-- non-vacuity: with the shipped converter `0.3 lb` (= 4.8 oz) is fitted to the fraction-type number `5 oz` with
+    recorded error −0.2 (`fit_fraction` answers `true`), which is fitted to itself; `-40 °F` stays `-40 °F` -/
+example : (fit (Converter.bundled Rat) ⟨.number (.regular (3/10)), some ['l','b']⟩).1 =
+      ⟨.number (.fraction 5 0 1 (-1/5)), some ['o','z']⟩ ∧
+    (fit (Converter.bundled Rat) ⟨.number (.fraction 5 0 1 (-1/5)), some ['o','z']⟩).1 =
+      ⟨.number (.fraction 5 0 1 (-1/5)), some ['o','z']⟩ ∧
+    (fit (Converter.bundled Rat) ⟨.number (.regular (-40)), some ['°','F']⟩).1 =
+      ⟨.number (.regular (-40)), some ['°','F']⟩ := by decide +kernel
+-- ===== end w6numeric =====
 
 end Cook
